@@ -1669,3 +1669,78 @@ def band_agree(ck, F, rule="BAND"):
                   "one, so what it relocates (cells, links or descriptors) parts from the rest"
                   % (fn, unit, show(lo), show(hi), ">" if sign == "down" else "<", show(ref[0]), show(ref[1])), loc[0], loc[1],
                   sample={"fn": fn, "unit": unit, "direction": sign, "lo": show(lo), "hi": show(hi)})
+
+
+# ------------------------------------------------------------------------------------------------ FLAG-MATCH (C09, C16)
+def flag_match(ck, F, rule="FLAG-MATCH"):
+    """Each coordinate is resolved with its own `$` flag: in the two printers (stringify, to_string_moved), wherever a branch
+    on a Node field `absolute_<k>` (k = row, column, row1, column1, row2, column2) selects between two integer values -- the
+    absolute coordinate and the coordinate offset by the formula's cell -- those values are computed from the field `<k>` and
+    from no other coordinate of the node.  `reference_column2 = if absolute_column1 { column2 } else { column2 + ctx }`
+    resolves the second corner with the first corner's flag: ranges like $A1:B2 are then judged inside or outside a cut area,
+    or displaced, by the wrong cell."""
+    NODE = "ironcalc_base::expressions::parser::Node"
+    COORDS = ("row", "column", "row1", "column1", "row2", "column2")
+    n = 0
+    for q in ("stringify::stringify", "move_formula::to_string_moved"):
+        b = ck.need(F.one, q)
+        pname = q.rsplit("::", 1)[-1]
+        k = {}
+        for bi, blk in enumerate(b.blocks):
+            t = blk["t"]
+            if t["k"] != "switch" or t["ty"] != "bool":
+                continue
+            fl = {x[2] for x in sources(b, t["o"]) if x[0] == "field" and x[1] == NODE}
+            if len(fl) != 1:
+                continue
+            flag = next(iter(fl))
+            if not flag.startswith("absolute_") or flag[len("absolute_"):] not in COORDS:
+                continue
+            want = flag[len("absolute_"):]
+            # the integer variable that both arms assign (the value selected by the flag), straight-line code up to the merge
+            arms_assign = []
+            for tgt in [x for _, x in t["targets"]] + [t["otherwise"]]:
+                assigned = {}
+                cur, steps = tgt, 0
+                while cur is not None and steps < 4:
+                    steps += 1
+                    for s in b.blocks[cur]["s"]:
+                        if place_proj(s["p"]) or b.locals[s["p"]["l"]] != "i32":
+                            continue
+                        rv = s["rv"]
+                        ops = [rv["o"]] if rv["k"] in ("use", "cast") else ([rv["a"], rv["b"]] if rv["k"] == "bin" else [])
+                        cf = set()
+                        for o in ops:
+                            cf |= {x[2] for x in sources(b, o) if x[0] == "field" and x[1] == NODE and x[2] in COORDS}
+                        assigned.setdefault(s["p"]["l"], set()).update(cf)
+                    nt = b.blocks[cur]["t"]
+                    if nt["k"] == "call" and not place_proj(nt["dest"]) and b.locals[nt["dest"]["l"]] == "i32":
+                        # `*column2 + ctx.column` on references is a call to <&i32 as Add>::add
+                        cf = set()
+                        for o in nt["args"]:
+                            cf |= {x[2] for x in sources(b, o) if x[0] == "field" and x[1] == NODE and x[2] in COORDS}
+                        assigned.setdefault(nt["dest"]["l"], set()).update(cf)
+                    elif nt["k"] not in ("goto", "assert"):
+                        break
+                    nx = b.succs(cur)
+                    if len(nx) != 1 or len(b.preds(nx[0])) > 1:
+                        break
+                    cur = nx[0]
+                arms_assign.append(assigned)
+            common = set(arms_assign[0]) if arms_assign else set()
+            for aa in arms_assign[1:]:
+                common &= set(aa)
+            coords = set()
+            for l in common:
+                for aa in arms_assign:
+                    coords |= aa[l]
+            found = bool(coords)
+            if not found:
+                continue
+            n += 1
+            idx = k[flag] = k.get(flag, 0) + 1
+            f, l = b.loc(bi)
+            ck.ob(rule, "%s|%s#%d selects a value of %s" % (pname, flag, idx, want), coords == {want},
+                  "%s branches on %s to choose between values computed from %s: the coordinate `%s` must be resolved with its own flag"
+                  % (pname, flag, sorted(coords), want), f, l, sample={"printer": pname, "flag": flag, "coordinates": sorted(coords)})
+    ck.ob(rule, "sites", n >= 6, "only %d flag-selected coordinates found in the printers (anchor lost?)" % n)
